@@ -70,6 +70,14 @@ class Real:
 
             def __eq__(self, o):
                 return type(o) is type(self) and o.uid == self.uid
+        class StrObj:
+            "an arbitrary object that is neither str nor HTML; str(obj) is s"
+            def __init__(self, s):
+                self.s = s
+
+            def __str__(self):
+                return self.s
+        self.StrObj = StrObj
         self.ReprObj, self.ReprTagObj, self.TagifyObj, self.Meta, self.Junk = ReprObj, ReprTagObj, TagifyObj, Meta, Junk
 
     # ---- decoding JSON spec values into real objects -------------------------------------------
@@ -141,6 +149,16 @@ class Real:
             return tl
         if k in ("CNil", "CCons"):
             return [self.dec(x) for x in self.unlist(j)]
+        if k == "Dep":
+            return self.dec({"$": "Md", "d": j})
+        if k in ("DLNil", "DLCons"):
+            return [self.dec(x) for x in self.unlist(j)]
+        if k == "APlain":
+            return j["s"]
+        if k == "AHtml":
+            return core.HTML(j["s"])
+        if k == "AObj":
+            return self.StrObj(j["s"])
         if k == "VNone":
             return None
         if k == "VBool":
@@ -213,7 +231,7 @@ class Real:
 
     def unlist(self, j):
         out = []
-        while j["$"] not in ("NNil", "ANil", "SNil", "CNil", "DNil", "DDNil", "TNil", "KNil"):
+        while j["$"] not in ("NNil", "ANil", "SNil", "CNil", "DNil", "DDNil", "TNil", "KNil", "DLNil"):
             if j["$"] == "ACons":
                 out.append((j["k"], j["v"]))
             else:
@@ -277,6 +295,14 @@ class Real:
             return cons([{"k": k, "v": self.enc_sort(x, "AttrVal")} for k, x in v.items()], "ANil", "ACons")
         if sort == "StrList":
             return cons([{"hd": x} for x in v], "SNil", "SCons")
+        if sort == "Dep":
+            return self.enc(v)["d"]
+        if sort == "DepList":
+            return cons([{"hd": self.enc_sort(x, "Dep")} for x in v], "DLNil", "DLCons")
+        if sort == "Rendered":
+            return {"$": "Rendered", "deps": self.enc_sort(v["dependencies"], "DepList"), "html": v["html"]}
+        if sort == "TgRes":
+            return {"$": "TgList", "items": self.enc_sort(v, "NodeList")} if isinstance(v, core.TagList) else {"$": "TgNode", "node": self.enc_sort(v, "Node")}
         if sort == "Child":
             if v is None:
                 return {"$": "CNone"}
